@@ -112,7 +112,7 @@ class Tree:
         r = self.rng
         nm = self.name().replace(b" ", b"_")
         path = d + nm
-        perms = r.choice([0o40755, 0o40700, 0o40555, 0o40500, 0o40775, None, 0o41777, 0o42775, 0o44755, 0o47777, 0o41700])
+        perms = r.choice([0o40755, 0o40700, 0o40555, 0o40500, 0o40775, None, 0o41777, 0o44755, 0o45777, 0o41700])   # (no set-group-id bit: the kernel hands it down to directories created below, which is not lhasa's doing)
         mt = r.choice([1000000000, 946684800, 0])
         self.members.append(arc.unix_dir(path, level=r.choice([1, 2, 3]), perms=perms, time=mt))
         it = {"p": path, "ty": "dir", "mtime": mt, "mode": (perms & 0o7777) if perms is not None else 0o755, "hp": perms is not None}
@@ -348,7 +348,7 @@ def prompt_pass(rng, sc, tier, ev):
             open(os.path.join(rd, rel), "wb").write(b"old " + rel.encode())
             os.chmod(os.path.join(rd, rel), 0o644)
             pre.append((rel, "file", b"old " + rel.encode(), 0o644))
-        p = subprocess.run([lha, "x", a], capture_output=True, cwd=rd, env=V.run_env(), input=b"".join(x + b"\n" for x in lines), timeout=120)
+        p = V.run_bounded([lha, "x", a], capture_output=True, cwd=rd, env=V.run_env(), input=b"".join(x + b"\n" for x in lines), timeout=120)
         if p.returncode not in (0, 1, 255):
             raise V.HarnessError("lha x at the prompt exited %s: %s" % (p.returncode, p.stderr.decode(errors="replace")[-300:]))
         tree = EG.walk_tree(rd)
